@@ -98,3 +98,12 @@ VARIANTS += [
          old="                if log_number != max_log_number:\n                    raise err\n",
          new="                if not log_number == max_log_number:\n                    raise err\n"),
 ]
+
+VARIANTS += [
+    dict(id="c06-snapshot-pickled-outside-thread-lock", prop="C06", file=JS, expect="R06.5",
+         old="            trial_id = self._replay_result._last_created_trial_id_by_this_process\n\n            # Dump snapshot here.\n            if (\n                isinstance(self._backend, BaseJournalSnapshot)\n                and trial_id != 0\n                and trial_id % SNAPSHOT_INTERVAL == 0\n            ):\n                self._backend.save_snapshot(pickle.dumps(self._replay_result))\n        return trial_id\n",
+         new="            trial_id = self._replay_result._last_created_trial_id_by_this_process\n\n        # Dump snapshot here.\n        if (\n            isinstance(self._backend, BaseJournalSnapshot)\n            and trial_id != 0\n            and trial_id % SNAPSHOT_INTERVAL == 0\n        ):\n            self._backend.save_snapshot(pickle.dumps(self._replay_result))\n        return trial_id\n"),
+    dict(id="c06-study-names-rebuilt-per-batch", prop="C06", file=JS, expect="R06.4",
+         old="    def apply_logs(self, logs: list[dict[str, Any]]) -> None:\n",
+         new="    def apply_logs(self, logs: list[dict[str, Any]]) -> None:\n        self._next_study_id = len(self._studies)\n"),
+]
